@@ -140,6 +140,51 @@ def _evaluate(pool, driver, t):
     return whgen.compare(impl, model), impl, model
 
 
+def _relabel(r, labels, how):
+    labels = list(labels)
+    if how == 'same':
+        return labels
+    if how == 'permuted':
+        out = labels[:]
+        r.shuffle(out)
+        return out
+    if how == 'foreign':
+        return ['z%d' % i for i in range(len(labels))]
+    if how == 'one_foreign' and labels:
+        out = labels[:]
+        out[r.randrange(len(out))] = 'zz'
+        return out
+    if how == 'repeat' and len(labels) >= 2:
+        out = labels[:]
+        out[1] = out[0]
+        return out
+    if how == 'shorter' and len(labels) >= 2:
+        return labels[:-1]
+    if how == 'longer':
+        return labels + ['extra']
+    return labels
+
+
+def make_given_weights_case(r, flavour):
+    t = make_case(r, flavour)
+    t.pop('pieces', None)
+    hows = ['same', 'permuted', 'foreign', 'one_foreign', 'repeat', 'shorter', 'longer']
+    if flavour == 'r2r' and r.random() < 0.4:
+        hows = ['same', 'permuted']          # both axes acceptable: the re-alignment itself is exercised
+    if flavour in ('r2r', 'r2b'):
+        cols = _relabel(r, t['cue_vectors']['dims'], r.choice(hows))
+    else:
+        cols = r.sample(CUES + ['q'], r.randint(0, 4))          # binary side: any cue names, new ones get appended
+    if flavour in ('r2r', 'b2r'):
+        rows = _relabel(r, t['outcome_vectors']['dims'], r.choice(hows if flavour == 'r2r' else hows[:4] + hows[5:]))
+    else:
+        rows = r.sample(OUTS + ['q'], r.randint(0, 3))
+    t['init'] = {'rows': rows, 'cols': cols,
+                 'vals': ['%d/%d' % (r.randint(-4, 4), r.choice([1, 2, 4])) for _ in range(len(rows) * len(cols))]}
+    t['given_labels'] = [rows, cols]
+    return t
+
+
 def run(rep, pool, driver, tier):
     r = rng('C08')
     quick = tier == 'quick'
@@ -170,11 +215,21 @@ def run(rep, pool, driver, tier):
     for i in range(6 if quick else 60):
         for flavour in ('r2b', 'r2b', 'r2r', 'b2r'):
             tasks.append((make_outcome_less_case(r_ol, flavour), 'outcome_less'))
+    # weights= handed in by the caller with labels that are NOT the table's: each flavour checks them its own
+    # way (b2r: identical list or ValueError; r2b: xarray-aligned comparison — positional use, ValueError only
+    # when alignment fails or the width differs; r2r: shape, alignment, then .loc by label — permutations are
+    # re-aligned, a missing label is a KeyError); model: whModel's `some w` branch (C08 wh_continue_label_check_*)
+    r_gw = rng('C08/given_weights_labels')
+    for i in range(8 if quick else 80):
+        for flavour in ('r2r', 'b2r', 'r2b'):
+            tasks.append((make_given_weights_case(r_gw, flavour), 'given_weights_labels'))
     impls = pool.map([t for t, _ in tasks])
     models = driver.ask([whgen.model_request(t) for t, _ in tasks])
     for (t, stream), impl, model in zip(tasks, impls, models):
         rep.case({k: v for k, v in t.items() if k != 'op'}, nontrivial=True, stream=stream)
         rep.count('flavour:' + t['flavour'])
+        if stream == 'given_weights_labels':
+            rep.count('given_weights:%s:%s' % (t['flavour'], model.get('err', 'accepted')))
         rep.count('outcome:' + model.get('err', 'Returned'))
         if 'err' not in model:
             rep.count('exact_domain' if model['bits'] <= 53 else 'tolerance_domain')
